@@ -9,7 +9,9 @@ from fractions import Fraction as F
 import numpy as np
 
 from harness import gallina as g
-from harness.util import import_df, attempt
+import copy
+
+from harness.util import import_df, attempt, relayout, LAYOUTS
 
 df = import_df()
 
@@ -322,7 +324,7 @@ def gen_src_field(rng, m, nv, dtype, mode):
     return dict(k="field", mesh=sm, nv=snv, data=data, mode=mode)
 
 
-def gen_simple(rng, m, nv, dtype, kind=None, in_dict=False, tier="quick"):
+def _gen_simple(rng, m, nv, dtype, kind=None, in_dict=False, tier="quick"):
     nd = len(m["n"])
     n = m["n"]
     kinds = ["const", "zero", "vec", "arr", "arr", "fun", "fun", "field"]
@@ -390,17 +392,47 @@ def gen_simple(rng, m, nv, dtype, kind=None, in_dict=False, tier="quick"):
     raise ValueError(kind)
 
 
+ADTS = ["int8", "int16", "int32", "int64", "uint8", "float32", "bool"]
+
+
+def decorate(rng, s, dtype):
+    """memory layout and element type of an array specification (same values)"""
+    if s.get("k") != "arr":
+        return s
+    if s.get("py", "ndarray") == "ndarray" and rng.random() < 0.6:
+        s["layout"] = rng.choice([x for x in LAYOUTS if x is not None])
+    if rng.random() < 0.35:
+        adt = rng.choice(ADTS)
+        top = 1 if (dtype == "bool" or adt == "bool") else 100
+        ok = all(F(v[1]) == 0 and F(v[0]).denominator == 1 and 0 <= F(v[0]) <= top for v in s["data"])
+        if not ok:
+            s["data"] = [[S(rng.randint(0, min(top, 9))), S(0)] for _ in s["data"]]
+        s["adt"] = adt
+    return s
+
+
+def gen_simple(rng, m, nv, dtype, kind=None, in_dict=False, tier="quick"):
+    s = _gen_simple(rng, m, nv, dtype, kind=kind, in_dict=in_dict, tier=tier)
+    if s.get("k") == "arr" and s.get("cls") == "arr" and nv == 1 and rng.random() < 0.5:
+        s["sh"] = list(m["n"])            # the other spelling of a scalar array: no component axis
+        s["cls"] = "arr-n"
+    return decorate(rng, s, dtype)
+
+
 def py_simple(s, dtype):
     k = s["k"]
     if k == "const":
         return pyval(s["v"], dtype)
     if k == "arr":
-        a = np.array([pyval(v, dtype) for v in s["data"]], dtype=DT[dtype]).reshape(s["sh"])
+        if s.get("adt"):
+            a = np.array([int(F(v[0])) for v in s["data"]], dtype=np.dtype(s["adt"])).reshape(s["sh"])
+        else:
+            a = np.array([pyval(v, dtype) for v in s["data"]], dtype=DT[dtype]).reshape(s["sh"])
         if s.get("py") == "list":
             return a.tolist()
         if s.get("py") == "tuple":
             return tuple(a.tolist())
-        return a
+        return relayout(a, s.get("layout"))
     if k == "fun":
         return py_fun(s["f"], dtype, s.get("style", 0))
     if k == "field":
@@ -814,7 +846,9 @@ def generate(rng, tier):
             m = dict(m)
             continue
         cases.append(dict(kind="init", mesh=m, nv=nv, dtype=dtype, spec=spec,
-                          via=rng.choice(["ctor", "ctor", "update"])))
+                          via=rng.choice(["ctor", "ctor", "update"]),
+                          dtarg="none" if (dtype != "complex" and spec["k"] in ("arr", "const")
+                                           and rng.random() < 0.25) else "given"))
     # -- targeted: overlapping subregions with distinct constants on every listed order
     for k in range(N):
         m = gen_mesh(rng, tier, nd=rng.choice([1, 2, 3]), exact=True)
@@ -843,7 +877,9 @@ def generate(rng, tier):
             s1 = gen_simple(rng, m, nv, dtype,
                             kind=rng.choice(["badlen", "badshape", "const-nv", "fun-len", "bad", "field-bad"]))
         cases.append(dict(kind="assign", mesh=m, nv=nv, dtype=dtype, s0=s0, s1=s1,
-                          via=rng.choice(["setter", "update"])))
+                          via=rng.choice(["setter", "update"]),
+                          dtarg="none" if (dtype != "complex" and s1["k"] in ("arr", "const")
+                                           and rng.random() < 0.25) else "given"))
     # -- arrays with the right element count but another shape, at all three entry points
     for k in range(N // 3):
         while True:
@@ -855,12 +891,33 @@ def generate(rng, tier):
         shapes = samesize_shapes(m["n"], nv)
         rng.shuffle(shapes)
         for sh in shapes[:5]:
-            s1 = dict(k="arr", sh=sh, data=seq_data(math.prod(sh), dtype), cls="samesize",
-                      py=rng.choice(["ndarray", "ndarray", "list"]))
+            s1 = decorate(rng, dict(k="arr", sh=sh, data=seq_data(math.prod(sh), dtype), cls="samesize",
+                                    py=rng.choice(["ndarray", "ndarray", "list"])), dtype)
             s0 = gen_simple(rng, m, nv, dtype, kind=rng.choice(["arr", "vec"]))
             cases.append(dict(kind="init", mesh=m, nv=nv, dtype=dtype, spec=s1, via="ctor"))
             for via in ("setter", "update"):
                 cases.append(dict(kind="assign", mesh=m, nv=nv, dtype=dtype, s0=s0, s1=s1, via=via))
+    # -- scalar arrays in both spellings (shape n and shape n + [1]), every layout / element type,
+    #    at all three entry points
+    for k in range(N // 2):
+        m = gen_mesh(rng, tier, nd=rng.choice([1, 2, 2, 3, 4]), exact=True, maxcells=48)
+        dtype = rng.choice(["float", "float", "int", "complex", "bool"])
+        for sh in (list(m["n"]), list(m["n"]) + [1]):
+            def mk():
+                s_ = dict(k="arr", sh=sh, data=[gen_val(rng, dtype) for _ in range(math.prod(sh))],
+                          cls="arr-n" if len(sh) == len(m["n"]) else "arr", py="ndarray")
+                s_["layout"] = LAYOUTS[rng.randrange(len(LAYOUTS))]
+                if rng.random() < 0.5:
+                    s_["adt"] = rng.choice(ADTS)
+                    top = 1 if (dtype == "bool" or s_["adt"] == "bool") else 9
+                    s_["data"] = [[S(rng.randint(0, top)), S(0)] for _ in s_["data"]]
+                return s_
+            dtarg = "none" if (dtype != "complex" and rng.random() < 0.3) else "given"
+            for via in ("ctor", "update"):
+                cases.append(dict(kind="init", mesh=m, nv=1, dtype=dtype, spec=mk(), via=via, dtarg=dtarg))
+            for via in ("setter", "update"):
+                cases.append(dict(kind="assign", mesh=m, nv=1, dtype=dtype, dtarg=dtarg, via=via, s1=mk(),
+                                  s0=gen_simple(rng, m, 1, dtype, kind=rng.choice(["arr", "vec", "fun"]))))
     # -- derived meshes: used, transformed in place, then assigned to and sampled
     for k in range(N * 2):
         d = gen_derived(rng, tier)
@@ -935,17 +992,82 @@ def generate(rng, tier):
 
 
 # ------------------------------------------------------------------ implementation
-def make_field(m, nv, dtype, spec, via="ctor", vdims=None):
+def dt_arg(c, dtype):
+    return None if c.get("dtarg") == "none" else DT[dtype]
+
+
+def make_field(m, nv, dtype, spec, via="ctor", vdims=None, dtarg="given", keep=None):
     mesh = build_mesh(m)
     val = py_spec(spec, dtype)
+    if keep is not None:
+        keep.append(val)
+        keep.append(snapshot(val))
     kw = {}
     if vdims is not None:
         kw["vdims"] = vdims
+    dta = None if dtarg == "none" else DT[dtype]
     if via == "ctor":
-        return df.Field(mesh, nvdim=nv, value=val, dtype=DT[dtype], **kw)
-    f = df.Field(mesh, nvdim=nv, dtype=DT[dtype], **kw)
+        return df.Field(mesh, nvdim=nv, value=val, dtype=dta, **kw)
+    f = df.Field(mesh, nvdim=nv, dtype=dta, **kw)
     f.update_field_values(val)
     return f
+
+
+# ---- the specification object stays the caller's: no aliasing, no modification
+def spec_arrays(val):
+    if isinstance(val, np.ndarray):
+        return [val]
+    if isinstance(val, df.Field):
+        return [val.array]
+    if isinstance(val, dict):
+        return [a for v in val.values() for a in spec_arrays(v)]
+    return []
+
+
+def snapshot(val):
+    if isinstance(val, np.ndarray):
+        return ("nd", val.copy(), val.dtype.str, val.shape)
+    if isinstance(val, df.Field):
+        return ("field", val.array.copy(), val.array.dtype.str, val.array.shape)
+    if isinstance(val, dict):
+        return ("dict", {k: snapshot(v) for k, v in val.items()})
+    if isinstance(val, (list, tuple)):
+        return ("seq", copy.deepcopy(val))
+    return ("other", None)
+
+
+def same_snapshot(snap, val):
+    tag = snap[0]
+    if tag in ("nd", "field"):
+        now = val.array if tag == "field" else val
+        return isinstance(now, np.ndarray) and now.dtype.str == snap[2] and now.shape == snap[3] and \
+            np.array_equal(now, snap[1])
+    if tag == "dict":
+        return isinstance(val, dict) and list(val.keys()) == list(snap[1].keys()) and \
+            all(same_snapshot(snap[1][k], val[k]) for k in val)
+    if tag == "seq":
+        return type(val) is type(snap[1]) and val == snap[1]
+    return True
+
+
+def alias_clauses(f, val, snap):
+    """call AFTER the field's array has been recorded: the specification is modified at the end"""
+    out = []
+    arrs = spec_arrays(val)
+    if any(np.shares_memory(f.array, a) for a in arrs):
+        out.append("field-aliases-specification")
+    if not same_snapshot(snap, val):
+        out.append("specification-changed")
+    before = f.array.copy()
+    for a in arrs:
+        if a.flags.writeable:
+            if a.dtype == np.bool_:
+                a[...] = ~a
+            else:
+                a[...] = a + 1
+    if not np.array_equal(before, f.array):
+        out.append("later-change-of-specification-leaks")
+    return out
 
 
 def pt(m, p):
@@ -1112,11 +1234,13 @@ def run_case(c):
     if kind == "init":
         spec = c["spec"]
         scale = spec_scale(spec, m) if not exact else F(1)
-        st, f = attempt(lambda: make_field(m, nv, dtype, spec, c["via"]))
+        keep = []
+        st, f = attempt(lambda: make_field(m, nv, dtype, spec, c["via"], dtarg=c.get("dtarg", "given"), keep=keep))
         e = expect(spec, m, nv)
         if st == "ok":
-            obs = dict(array=enc_arr(f.array), shape=list(f.array.shape))
+            obs = dict(array=enc_arr(f.array), shape=list(f.array.shape), dtype=str(f.array.dtype))
             coq_obs = f"(Some {cvl(obs['array'])})"
+            rec["oracle"] += alias_clauses(f, keep[0], keep[1])
             if e == REJECT:
                 rec["oracle"].append("invalid-spec-accepted")
             elif e != UNSPEC:
@@ -1128,20 +1252,24 @@ def run_case(c):
             coq_obs = "None"
             if e != REJECT and e != UNSPEC:
                 rec["oracle"].append("valid-spec-rejected")
+            if keep and not same_snapshot(keep[1], keep[0]):
+                rec["oracle"].append("specification-changed")
         cls = spec.get("cls") or ("dict:" + ",".join(sorted(sv.get("cls", "?") for _, sv in spec["items"])) +
                                   "/" + ((spec["default"] or {}).get("cls", "none")))
         rec.update(obs=obs, coq=f'CInit {g.b(exact)} {g.q(scale)} {mesh_coq(m)} {g.nat(nv)} {spec_coq(spec)} {coq_obs}',
-                   key=f'init/{exact}/{len(n)}/{nv}/{dtype}/{cls}/{st}/{c["via"]}')
+                   key=f'init/{exact}/{len(n)}/{nv}/{dtype}/{cls}/{st}/{c["via"]}/{spec.get("layout")}/'
+                       f'{spec.get("adt")}/{c.get("dtarg", "given")}')
         return rec
 
     if kind == "assign":
         s0, s1 = c["s0"], c["s1"]
-        st0, f = attempt(lambda: make_field(m, nv, dtype, s0, "ctor"))
+        st0, f = attempt(lambda: make_field(m, nv, dtype, s0, "ctor", dtarg=c.get("dtarg", "given")))
         if st0 != "ok":      # s0 is always a valid specification
             rec.update(obs=dict(err=f), coq=None, oracle=["valid-spec-rejected"], key="assign/setup-failed")
             return rec
         before = f.array.copy()
         val = py_spec(s1, dtype)
+        snap = snapshot(val)
         if c["via"] == "setter":
             def do():
                 f.array = val
@@ -1161,11 +1289,20 @@ def run_case(c):
                 rec["oracle"].append("valid-spec-rejected")
             if after.shape != before.shape or not np.array_equal(after, before) or after.dtype != before.dtype:
                 rec["oracle"].append("failed-assignment-changed-field")
-        obs = dict(ok=st == "ok", after=enc_arr(after))
+        obs = dict(ok=st == "ok", after=enc_arr(after), dtype=str(after.dtype))
         cls = s1.get("cls", "dict")
+        if st == "ok":
+            # the entry point must not matter: the constructor gives the same element type
+            stc, ref = attempt(lambda: df.Field(f.mesh, nvdim=nv, value=py_spec(s1, dtype), dtype=dt_arg(c, dtype)))
+            if stc == "ok" and ref.array.dtype != f.array.dtype:
+                rec["oracle"].append("setter-dtype")
+            rec["oracle"] += alias_clauses(f, val, snap)
+        elif not same_snapshot(snap, val):
+            rec["oracle"].append("specification-changed")
         rec.update(obs=obs, coq=f'CAssign {mesh_coq(m)} {g.nat(nv)} (VSimple {simple_coq(s0)}) {spec_coq(s1)} '
                                 f'{g.b(st == "ok")} {cvl(obs["after"])}',
-                   key=f'assign/{len(n)}/{nv}/{dtype}/{cls}/{st}/{c["via"]}')
+                   key=f'assign/{len(n)}/{nv}/{dtype}/{cls}/{st}/{c["via"]}/{s1.get("layout")}/{s1.get("adt")}/'
+                       f'{c.get("dtarg", "given")}')
         return rec
 
     spec = c["spec"]
